@@ -227,6 +227,8 @@ type Thread struct {
 	commaOk bool
 	elemT   types.Type
 	done    bool
+	id      int // goroutine id (0: the harness goroutine)
+	waitMu  int // mutex object the thread waits for (waitCh is -2 meanwhile)
 }
 
 type State struct {
@@ -253,6 +255,9 @@ type State struct {
 	started   map[int]bool
 	guards    map[int]guard      // map object -> lock that must be held when library code touches it
 	divCache  map[string][2]Term // IA mode: quotient/remainder symbols already introduced on this path
+	curTID    int                // id of the running goroutine
+	nextTID   int
+	holders   map[int]map[int]int // mutex -> goroutine id -> holds (write lock = 1000)
 }
 
 func (st *State) top() *Frame { return st.frames[len(st.frames)-1] }
@@ -314,6 +319,18 @@ func (e *Engine) clone(st *State) *State {
 		depth:     st.depth + 1,
 		unwind:    st.unwind,
 		panicsOn:  st.panicsOn,
+		curTID:    st.curTID,
+		nextTID:   st.nextTID,
+	}
+	if st.holders != nil {
+		n.holders = make(map[int]map[int]int, len(st.holders))
+		for k, m := range st.holders {
+			c := make(map[int]int, len(m))
+			for t, v := range m {
+				c[t] = v
+			}
+			n.holders[k] = c
+		}
 	}
 	st.depth++
 	for k, v := range st.globals {
